@@ -163,6 +163,12 @@ def run(tier):
                 rep.violation(feat, {'plan': meta[d['di'] - 1], 'style': d['sty'],
                                      'text': ''.join(chr(c) for c in d['text']), 'input': v, 'denotation': d['den'],
                                      'parsed': tcases[n - 1]['b']})
+        # the documents the repository's own test-suite parses, read by the reader machine: what hszinc
+        # returned (and the tests assert) must be what the specification says the text denotes
+        import rectest
+        rec, _ = rectest.record(work, codec=True)
+        for f, d in rectest.judge_codec(rep, work, rec, {('parse', 'zinc')}):
+            rep.violation(f, d)
         # empty input
         for data, single, want in (('', True, None), ('', False, []), (b'', True, None), ('\n', True, None)):
             rep.case(('empty', repr(data), single))
